@@ -359,3 +359,44 @@ def module_name_cut_rule(H, classes):
     H.check("written_file_loads", len(q.modules) == 2)
     H.check("loaded_name_is_longest_fitting_prefix", H.eq(q.modules[1].name, want))
     H.cover("reached")
+
+
+def _sparse_cases(tier):
+    return [("Echo", "Echo"), ("Filter", "Filter"), ("Sampler", "Sampler")] + ([("Fmx", "Fmx"), ("MetaModule", "MetaModule")] if tier == "thorough" else [])
+
+
+@contract("sparse_bindings_roundtrip", ["C01", "C02", "C03"], targets=_WRITER_TARGETS + _READER_TARGETS, cases=_sparse_cases)
+def sparse_bindings_roundtrip(H, cname):
+    """Controller MIDI bindings that were touched for only SOME controllers and in a different order than
+    the declaration order (the maps live in a dict that is filled on first access): each binding comes
+    back on the controller it was made for, in both contexts, and both writers emit the same CMID."""
+    from rv.cmidmap import MidiMessageType, Slope
+    from rv.synth import Synth
+
+    cls = K.class_by_name(cname)
+    m = cls()
+    names = [n for n, c in cls.controllers.items() if c.attached(m)]
+    picks = [names[-1], names[len(names) // 2], names[1]] if len(names) >= 3 else names[::-1]
+    want = {}
+    for i, n in enumerate(picks):  # touched last-to-first
+        mm = m.controller_midi_maps[n]
+        mm.channel = H.int(f"ch.{n}", 0, 255)
+        mm.message_parameter = H.int(f"par.{n}", 0, 0xFFFF)
+        mm.message_type = [MidiMessageType.control_change, MidiMessageType.nrpn, MidiMessageType.pitch_bend][i % 3]
+        mm.slope = [Slope.exp1, Slope.toggle, Slope.cut][i % 3]
+        want[n] = (mm.message_type, mm.channel, mm.slope, mm.message_parameter)
+    ctx = H.choice("context", ["project", "synth"])
+    if ctx == "project":
+        p = Project()
+        p.attach_module(m)
+        q = rw.read_back(H, rw.write_container(H, p)).modules[1]
+    else:
+        q = rw.read_back(H, rw.write_container(H, Synth(m))).module
+    for n in names:
+        b = q.controller_midi_maps[n]
+        if n in want:
+            t, ch, sl, par = want[n]
+            H.check(f"binding[{n}].kept_on_its_controller", H.and_(b.message_type == t, H.eq(b.channel, ch), b.slope == sl, H.eq(b.message_parameter, par)))
+        else:
+            H.check(f"binding[{n}].still_unset", b.message_type == MidiMessageType.unset and b.channel == 0 and b.message_parameter == 0)
+    H.cover("reached")
